@@ -672,13 +672,68 @@ def main():
     if n_ob == 0 and rc == 0:
         rc = 2
         lines_out.append("UNDECIDED property=%s reason=no obligations generated (vacuous run)" % prop)
+    thorough_info = None
+    if thorough and rc == 0:
+        thorough_info = run_thorough(prop, results, a.repo, seed)
+        for l in thorough_info.get("lines", []):
+            lines_out.append(l)
+        if thorough_info.get("unstable"):
+            rc = 2
     wall = time.time() - t0
-    write_evidence(prop, a.tier, seed, results, obligations, n_ob, n_failed, known_hits, violations, undecided, canary_total, vacuous, wall, mine)
+    write_evidence(prop, a.tier, seed, results, obligations, n_ob, n_failed, known_hits, violations, undecided, canary_total, vacuous, wall, mine, thorough_info)
     for l in lines_out:
         print(l)
     print("%s: units=%s obligations=%d discharged=%d known_open=%d violations=%d undecided=%d canaries=%d wall=%.1fs" % (
         prop, ",".join(mine), n_ob, n_ob - n_failed, len(known_hits), nviol, len(undecided), canary_total, wall))
     return rc
+
+def run_thorough(prop, results, repo, seed):
+    """thorough tier (only after the quick verdict is a pass):
+    (1) proof stability: every unit is verified again with two other Z3 random seeds and a 4x resource limit is NOT given -- an obligation that
+        only holds for one seed is reported (UNDECIDED, exit 2), never as a violation;
+    (2) contract strength: a seeded sample of syntactic mutants of the real functions that carry this property (one per function, at most 40 per
+        unit) is run through the same pipeline; killed / undecided / survived are recorded in the evidence, survivors are listed as NOTE lines
+        (an equivalent mutant or a gap in the contracts; they do not change the exit code)."""
+    info = {"z3_seeds": [], "unstable": [], "mutation": {}, "lines": []}
+    for r in results:
+        if r.status != "ok":
+            continue
+        for zs in (seed * 2 + 11, seed * 2 + 12):
+            out = run_verus(r.path, extra=["--smt-option", "smt.random_seed=%d" % zs])
+            errs = [d for d in out["diags"] if d.get("level") == "error" and not d.get("message", "").startswith("aborting due to")]
+            known = set(f["text"][:80] for f in r.failures)
+            bad = []
+            for d in errs:
+                sp = [x for x in d.get("spans", []) if x.get("is_primary")] or d.get("spans", [])
+                txt = norm(span_text(r.lines, sp[0]))[:80] if sp else d.get("message", "")[:80]
+                if txt not in known:
+                    bad.append("%s: %s" % (classify(d) or "error", txt))
+            info["z3_seeds"].append({"unit": r.unit, "z3_seed": zs, "new_failures": bad[:10], "wall_s": round(out["wall"], 1)})
+            if bad:
+                info["unstable"].append("%s (z3 seed %d): %s" % (r.unit, zs, "; ".join(bad[:3])))
+    for u in info["unstable"]:
+        info["lines"].append("UNDECIDED property=%s reason=proof not stable under another solver seed: %s" % (prop, u[:300]))
+    # (2) mutation sample
+    try:
+        import mutate
+        for r in results:
+            if r.status != "ok":
+                continue
+            fnames = set()
+            for f in r.fns:
+                if f.real and f.mode == "exec" and prop in fn_all_tags(f, r.udesc):
+                    fnames.add(f.name)
+            res = mutate.sample(r.unit, repo, fnames, per_fn=1, limit=40, seed=seed, jobs=8)
+            summ = {}
+            for m in res:
+                summ[m["outcome"]] = summ.get(m["outcome"], 0) + 1
+            info["mutation"][r.unit] = {"summary": summ, "survivors": [m["mut"] for m in res if m["outcome"] == "survived"], "mutants": len(res)}
+            for m in res:
+                if m["outcome"] == "survived":
+                    info["lines"].append("NOTE property=%s surviving mutant (equivalent, or not pinned down by a contract): %s in fn %s" % (prop, m["mut"], m["fn"]))
+    except Exception as e:
+        info["mutation"]["error"] = str(e)[:200]
+    return info
 
 def find_witness(prop, r, f, repo, seed):
     try:
@@ -703,7 +758,7 @@ def replay(prop, path, repo):
     print("obligation %s on the current tree" % ("STILL FAILS" if still else "no longer fails"))
     return 1 if still else 0
 
-def write_evidence(prop, tier, seed, results, obligations, n_ob, n_failed, known_hits, violations, undecided, canary_total, vacuous, wall, units):
+def write_evidence(prop, tier, seed, results, obligations, n_ob, n_failed, known_hits, violations, undecided, canary_total, vacuous, wall, units, thorough_info=None):
     trusted = []
     fn_list = []
     lemmas = []
@@ -758,6 +813,8 @@ def write_evidence(prop, tier, seed, results, obligations, n_ob, n_failed, known
         "wall_s": round(wall, 2),
         "violations": len(violations),
     }
+    if thorough_info is not None:
+        ev["coverage"]["thorough"] = {k: v for k, v in thorough_info.items() if k != "lines"}
     if n_ob == 0 or undecided:
         ev["level"] = "other"
         ev["coverage"]["explanation"] = "UNDECIDED run: nothing is claimed by this evidence file. " + "; ".join("%s: %s" % (r.unit, r.reason) for r in undecided)
